@@ -1,10 +1,10 @@
 package main
 
 import (
-	"sort"
 	"fmt"
 	"go/token"
 	"go/types"
+	"sort"
 	"strings"
 
 	"golang.org/x/tools/go/ssa"
@@ -94,6 +94,144 @@ func runC05(c *Ctx) {
 		for _, o := range subn.R.Obls {
 			c.R.Check(o.OK, "P7", strings.TrimPrefix(o.Key, "N2@"), o.Site, o.Detail, o.Detail)
 		}
+		checkP9(c, pr)
+	}
+}
+
+// isChanCapSym: cap(<channel>)
+func isChanCapSym(x *Sym) bool {
+	x = deepStrip(x)
+	if x.Op != "call" || x.Name != "cap" || len(x.Args) != 1 {
+		return false
+	}
+	if v := x.Args[0].V; v != nil {
+		_, isChan := v.Type().Underlying().(*types.Chan)
+		return isChan
+	}
+	return false
+}
+
+// checkP9 (C05): the read of an input that may give up although data is waiting - the select of
+// the input against the interrupter ticker, without default - is reached only for an input of
+// capacity 0 (behind `cap(channel) == 0`, in the function or at every call site of it). A buffered
+// input with data waiting that is read this way loses to two ready ticks now and then; its unspent
+// allotment then counts as "no data" and goes to priorities that already hold their share.
+func checkP9(c *Ctx, pr *prioRoles) {
+	p := pr.p
+	c.R.Doc("P9", "the ticker-bounded read (it may give up with data waiting) is reached only under cap(input) == 0: buffered inputs are read by the polling select", 2)
+	capZero := func(e CondEdge) bool {
+		iff, ok := e.From.Instrs[len(e.From.Instrs)-1].(*ssa.If)
+		if !ok {
+			return false
+		}
+		cm := p.NormCmp(iff.Cond, e.Succ == 0)
+		if cm == nil {
+			return false
+		}
+		konst := func(x *Sym, k int64) (int64, bool) {
+			v, isK := symConstInt(deepStrip(x))
+			return v + k, isK
+		}
+		switch cm.Op {
+		case token.EQL:
+			if v, isK := konst(cm.R, cm.RC); isK && v == 0 && isChanCapSym(cm.L) && cm.LC == 0 {
+				return true
+			}
+			if v, isK := konst(cm.L, cm.LC); isK && v == 0 && isChanCapSym(cm.R) && cm.RC == 0 {
+				return true
+			}
+		case token.LEQ: // cap(ch) <= 0 (the else branch of cap(ch) > 0): a capacity is never negative
+			if v, isK := konst(cm.R, cm.RC); isK && v <= 0 && isChanCapSym(cm.L) && cm.LC == 0 {
+				return true
+			}
+		case token.LSS: // cap(ch) < 1
+			if v, isK := konst(cm.R, cm.RC); isK && v <= 1 && isChanCapSym(cm.L) && cm.LC == 0 {
+				return true
+			}
+		}
+		return false
+	}
+	// the edge pred -> succ is taken only under cap == 0
+	capZeroInto := func(pred, succ *ssa.BasicBlock) bool {
+		for i, sb := range pred.Succs {
+			if sb == succ && len(pred.Succs) == 2 && capZero(CondEdge{pred, i}) && pred.Succs[1-i] != succ {
+				return true
+			}
+		}
+		for _, e := range DomEdges(pred) {
+			if capZero(e) {
+				return true
+			}
+		}
+		return false
+	}
+	var guarded func(in ssa.Instruction, depth int) bool
+	guarded = func(in ssa.Instruction, depth int) bool {
+		for _, e := range InstrDomEdges(in) {
+			if capZero(e) {
+				return true
+			}
+		}
+		fn := in.Parent()
+		if depth > 3 || fn == pr.rt.E.Entry {
+			return false
+		}
+		sites := p.CallSitesX(fn)
+		if len(sites) == 0 {
+			return false
+		}
+		for _, cs := range sites {
+			ci, ok := cs.Call.(ssa.Instruction)
+			if !ok {
+				return false
+			}
+			// chosen by a branch (transfer := dsc.iou; if cap(ch) != 0 { transfer = dsc.io };
+			// transfer(p)): the edges of the phi that carry this function are cap == 0 edges
+			if ph, isPhi := stripChangeType(cs.Call.Common().Value).(*ssa.Phi); isPhi && p.Callee(cs.Call) != fn {
+				okPhi := true
+				for i := range ph.Edges {
+					idx := i
+					ts := p.funcValueTargetsChoice(nil, cs.Call, func(q *ssa.Phi) (int, bool) {
+						if q == ph {
+							return idx, true
+						}
+						return 0, false
+					})
+					carries := false
+					for _, t := range ts {
+						if t.Fn == fn {
+							carries = true
+						}
+					}
+					if carries && !capZeroInto(ph.Block().Preds[i], ph.Block()) {
+						okPhi = false
+					}
+				}
+				if okPhi {
+					continue
+				}
+			}
+			if !guarded(ci, depth+1) {
+				return false
+			}
+		}
+		return true
+	}
+	n := 0
+	for _, fn := range pr.rt.Funcs {
+		k := 0
+		for _, rs := range p.RecvSites(fn) {
+			if !isInputChanType(rs.Chan.Type()) || rs.Case == nil || rs.Sel.HasDefault {
+				continue
+			}
+			k++
+			n++
+			c.R.Check(guarded(rs.Sel.Sel, 0), "P9", fmt.Sprintf("%s#bounded-read.%d", p.FnKey(fn), k), rs.Pos(p), "reached only under cap(input) == 0",
+				"an input is read by the select that gives up after two ticks although its capacity is not known to be 0: a buffered input with data waiting can be passed over, and its unspent allotment is then handed to priorities that already hold their share")
+		}
+	}
+	if n == 0 {
+		c.R.Pass("P9", pr.key+"#no-bounded-read", "-", "no input is read by a select that may give up")
 	}
 }
 
@@ -556,8 +694,30 @@ func checkN2(c *Ctx, pr *prioRoles) {
 					// result extracted from a tuple
 					iff := e.From.Instrs[len(e.From.Instrs)-1].(*ssa.If)
 					base, neg := condOf(iff.Cond)
-					if ex, isEx := base.(*ssa.Extract); isEx && ex.Index == 0 {
-						if call, isCall := ex.Tuple.(*ssa.Call); isCall && p.CalleeX(call) != nil && reachesVac(p.CalleeX(call)) && (e.Succ == 0) == neg {
+					isProceed := func(v ssa.Value) bool {
+						if ex, isEx := v.(*ssa.Extract); isEx && ex.Index == 0 {
+							if call, isCall := ex.Tuple.(*ssa.Call); isCall && p.CalleeX(call) != nil && reachesVac(p.CalleeX(call)) {
+								return true
+							}
+						}
+						if call, isCall := v.(*ssa.Call); isCall && p.CalleeX(call) != nil && reachesVac(p.CalleeX(call)) {
+							return true
+						}
+						return false
+					}
+					if isProceed(base) && (e.Succ == 0) == neg {
+						return "only when the round-start calculation could not proceed"
+					}
+					// the verdict kept in a variable that every path assigns from the calculation
+					// (proceed, err := calc(); for err == nil && !proceed { wait(); proceed, err = calc() })
+					if ph, isPhi := base.(*ssa.Phi); isPhi && (e.Succ == 0) == neg {
+						all := len(ph.Edges) > 0
+						for _, ev := range ph.Edges {
+							if !isProceed(ev) {
+								all = false
+							}
+						}
+						if all {
 							return "only when the round-start calculation could not proceed"
 						}
 					}
@@ -803,6 +963,23 @@ func runC17(c *Ctx) {
 	// later, and reading it relies on the interrupter ticking
 	r.Doc("R6", "(= N1) the interrupter ticks for the whole life of the discipline: stopped only by the entry's deferred clean-up, never by the constructor", 1)
 	checkN1bAs(c, pr, "R6")
+	// R7 (= E13, E15 on v1): "graceful termination holds across any sequence": with every input
+	// removed the scheduler must still come round to the graceful request, so it parks nowhere but
+	// in a wait for a release that is bound to come (or a select that a release / tick wakes)
+	r.Doc("R7", "(= C07 E13, E15) the v1 scheduler blocks only for a release it is owed or in selects a release / live ticker wakes: with all inputs removed it still observes the graceful request", 4)
+	{
+		sub := &Ctx{V1: c.V1, V2: c.V2, Tier: c.Tier, R: NewReport("tmp", c.Tier)}
+		checkN2(sub, pr)
+		checkSchedulerWaits(sub, pr.sr, "E13")
+		for _, o := range sub.R.Obls {
+			if (o.Rule == "N2" && strings.Contains(o.Key, "#release-wait")) || o.Rule == "E13" {
+				r.Check(o.OK, "R7", o.Key, o.Site, o.Detail, o.Detail)
+			}
+		}
+	}
+	// R8 (= B14): commands are applied between the uses of the round's allotment
+	r.Doc("R8", "(= C01 B14) commands are received only outside the functions that use the round's allotment: capacity holds across any sequence of additions and removals", 2)
+	checkCommandsBetweenRounds(c, pr, "R8")
 	// R1
 	for _, f := range []string{"inputAdds", "inputRmvs"} {
 		capc := p.chanCapacityConst(d, f)
@@ -1154,7 +1331,7 @@ func checkN6(c *Ctx, pr *prioRoles) {
 						}
 						iff := e.From.Instrs[len(e.From.Instrs)-1].(*ssa.If)
 						cm := p.NormCmp(iff.Cond, e.Succ == 0)
-						if cm != nil && strings.Contains(cm.String(), "len(") {
+						if cm != nil && isRangeHeaderCmp(cm) {
 							continue // the range loop's own test
 						}
 						keep = append(keep, keepCond{cm, p.condSymOnEdge(e)})
@@ -1714,7 +1891,7 @@ func checkN78(c *Ctx, pr *prioRoles) {
 						}
 						iff := e.From.Instrs[len(e.From.Instrs)-1].(*ssa.If)
 						cm := p.NormCmp(iff.Cond, e.Succ == 0)
-						if cm != nil && strings.Contains(cm.String(), "len(") {
+						if cm != nil && isRangeHeaderCmp(cm) {
 							continue
 						}
 						keep = append(keep, cm)
